@@ -141,3 +141,116 @@ def C07(tier):
 
 
 REG["C07"] = C07
+
+
+def trees(maxN, out=True):
+    """all rooted trees on <= maxN nodes as canonical edge lists, every edge order; out-trees (edges point away
+    from the root) or in-trees"""
+    res = []
+    for N in range(2, maxN + 1):
+        for el in edge_lists(N, N - 1, selfloops=False, connected=True, simple=True):
+            indeg = [0] * N
+            outdeg = [0] * N
+            for f, t in el:
+                outdeg[f] += 1
+                indeg[t] += 1
+            if out and sorted(indeg) == [0] + [1] * (N - 1):
+                res.append(el)
+            if not out and sorted(outdeg) == [0] + [1] * (N - 1):
+                res.append(el)
+    return res
+
+
+def C08(tier):
+    q = tier == "quick"
+    sh = [s for s in shapes(3, 3, selfloops=False)] if q else shapes(4, 4)
+    obs = [layout_ob("layout-rename", "Harness_E_C08", sh, {"P4": [4, 3] if q else [4, 1, 3], "P1": [0] if q else [0, 1]},
+                     consts={"P2": 0, "P5": 2, "SZ": 2, "INTSZ": 1},
+                     bounds="canonical edge lists x {SinkColoring,NetworkSimplex positioner}; symbolic: injective renaming chosen by the solver from the alphabet "
+                            "{a,V1,V2,V3,NE0..NE3,'',non-ASCII,n0,n1}, integer sizes/spacings", enctimeout=90, qtimeout=60)]
+    return dict(obligations=obs)
+
+
+def C09(tier):
+    q = tier == "quick"
+    multi = [s for s in (shapes(4, 3) if q else shapes(5, 4)) if not __import__("vlib.driver").driver.is_connected(s, 1 + max(max(e) for e in s))]
+    obs = [layout_ob("layout-components", "Harness_E_C09", multi, {"P4": [4, 1, 5], "P1": [0, 1], "P2": [0, 1]},
+                     consts={"P5": 2, "SZ": 2},
+                     bounds="all canonical edge lists with >= 2 components (N<=%d, M<=%d; interleaved edge orders, self-looped singletons) x 3 positioners x 2 breakers x 2 layerers" % ((4, 3) if q else (5, 4)))]
+    return dict(obligations=obs)
+
+
+def C10(tier):
+    q = tier == "quick"
+    sh = shapes(4, 4, selfloops=False, connected=True) if q else shapes(5, 5, selfloops=False, connected=True)
+    obs = [layout_ob("layout-ns-optimal", "Harness_E_C10", sh, {"P1": [0, 1]},
+                     consts={"P2": 0, "P4": 1, "P5": 0, "SZ": 0, "LSFIX": 1, "NSFIX": 1},
+                     bounds="all canonical connected loop-free edge lists N<=%d M<=%d x {greedy,dfs}; symbolic: an arbitrary alternative layering alt[i] in 0..15 "
+                            "(the solver searches for a cheaper feasible layering)" % ((4, 4) if q else (5, 5)))]
+    return dict(obligations=obs)
+
+
+def C11(tier):
+    q = tier == "quick"
+    sh = shapes(4, 4) if q else shapes(5, 5, selfloops=False)
+    obs = [layout_ob("layout-lp-min-layers", "Harness_E_C11", sh, {"P1": [0, 1]},
+                     consts={"P2": 1, "P4": 1, "P5": 0, "SZ": 0, "LSFIX": 1, "NSFIX": 1},
+                     bounds="all canonical edge lists N<=%d M<=%d x {greedy,dfs} x longest-path layering" % ((4, 4) if q else (5, 5)))]
+    return dict(obligations=obs)
+
+
+def C12(tier):
+    q = tier == "quick"
+    sh = shapes(4, 4, selfloops=False, connected=True, simple=True) if q else shapes(5, 6, selfloops=False, connected=True, simple=True)
+    obs = [layout_ob("layout-crossings", "Harness_E_C12", sh, {"P4": [4, 1, 5], "P2": [0, 1]},
+                     consts={"P1": 1, "P5": 2, "SZ": 4, "LSFIX": 1},
+                     bounds="all canonical connected simple edge lists N<=%d M<=%d x {SinkColoring,VAlign,PackRight} x {NS,LP}, polyline; symbolic widths, NodeSpacing" % ((4, 4) if q else (5, 6)))]
+    return dict(obligations=obs)
+
+
+def C13(tier):
+    q = tier == "quick"
+    n = 5 if q else 6
+    sh = trees(n, True) + trees(n, False)
+    obs = [layout_ob("layout-trees-planar", "Harness_E_C13", sh, {"P4": [4, 1, 5]},
+                     consts={"P1": 0, "P2": 0, "P5": 2, "SZ": 4, "LSFIX": 1},
+                     bounds="all out-trees and in-trees with <= %d nodes in every edge order x {SinkColoring,VAlign,PackRight}; symbolic widths, NodeSpacing" % n)]
+    return dict(obligations=obs)
+
+
+def C16(tier):
+    q = tier == "quick"
+    sh = shapes(4, 4, connected=True) if q else shapes(5, 5, connected=True)
+    obs = [layout_ob("layout-valign-packright", "Harness_E_C16", sh, {"P4": [1, 5], "P1": [0, 1]},
+                     consts={"P2": 0, "P5": 2, "SZ": 2, "VIRT": 1},
+                     bounds="all canonical connected edge lists N<=%d M<=%d x {VAlign,PackRight} x {greedy,dfs}, helper nodes in the output; symbolic sizes and spacings" % ((4, 4) if q else (5, 5)))]
+    return dict(obligations=obs)
+
+
+def C17(tier):
+    q = tier == "quick"
+    sh = shapes(3, 3) if q else shapes(4, 4)
+    ks = [-1, 1] if q else [-3, -2, -1, 1, 2, 3, 4, 5, 6]
+    obs = [layout_ob("layout-scale", "Harness_E_C17", sh, {"P4": [4, 1, 5, 2], "P5": [1, 2, 3], "K": ks},
+                     consts={"P1": 0, "P2": 0, "SZ": 2},
+                     bounds="canonical edge lists x {SinkColoring,VAlign,PackRight,B&K} x {straight,polyline,ortho} x factors 2^k, k in %s" % ks)]
+    return dict(obligations=obs)
+
+
+def C18(tier):
+    q = tier == "quick"
+    sh = shapes(3, 3) if q else shapes(4, 4)
+    K = 2 if q else 3
+    hist = [{}]
+    for i in range(K):
+        hist = [dict(h, **{"kind[%d]" % i: k, "mon[%d]" % i: m}) for h in hist for k in range(4) for m in range(2)]
+    small = [[(0, 1), (1, 2), (0, 2)], [(0, 0), (0, 1)]]
+    obs = [layout_ob("monitor-does-not-change-layout", "Harness_E_C18a", sh, {"P4": [4, 2], "P2": [0, 1]},
+                     consts={"P1": 0, "P5": 2, "SZ": 2}, bounds="canonical edge lists x {SinkColoring,B&K} x {NS,LP}: layout with and without a recording monitor"),
+           dict(name="monitor-histories", pkg=".", func="Harness_E_C18b", consts=dict(OPT_DEFAULT, K=K),
+                cubes=[dict(shape_cube(s), **h) for s in small for h in hist],
+                bounds="all histories of %d calls, each one of {empty graph (panics), self-looped node, one edge, a 3-node graph} x {own monitor, none}" % K)]
+    return dict(obligations=obs)
+
+
+REG.update({"C08": C08, "C09": C09, "C10": C10, "C11": C11, "C12": C12, "C13": C13, "C16": C16, "C17": C17, "C18": C18})
